@@ -53,10 +53,11 @@ static GLOBAL: Counting = Counting;
 // ---------------------------------------------------------------- helpers
 fn unhex(s: &str) -> Vec<u8> {
     if s == "-" {
-        return Vec::new();
+        // a real allocation, so that an empty buffer still has an address of its own
+        return Vec::with_capacity(8);
     }
     let b = s.as_bytes();
-    let mut v = Vec::with_capacity(b.len() / 2);
+    let mut v = Vec::with_capacity(b.len() / 2 + 8);
     let h = |c: u8| -> u8 {
         match c {
             b'0'..=b'9' => c - b'0',
@@ -293,12 +294,14 @@ fn hist_case(kind: &str, cap: usize, calls: &[Call], bufs: &[Vec<u8>], out: &mut
     let mut uarrs: Vec<Vec<MaybeUninit<Header<'_>>>> = calls.iter().map(|c| poison_array(c.ucap)).collect();
     let mut uit = uarrs.iter_mut();
     let last = bufs.last().map(|b| &b[..]).unwrap_or(&[]);
+    let mut vl = 0usize;
     if kind == "q" {
         let mut req = Request::new(&mut arr);
         let mut r = Ok(Status::Partial);
         for (c, b) in calls.iter().zip(bufs.iter()) {
             let u = uit.next().unwrap();
             let conf = config(c.cfg);
+            vl = req.headers.len();
             r = match c.entry {
                 0 => req.parse(b),
                 1 => conf.parse_request(&mut req, b),
@@ -324,6 +327,7 @@ fn hist_case(kind: &str, cap: usize, calls: &[Call], bufs: &[Vec<u8>], out: &mut
         for (c, b) in calls.iter().zip(bufs.iter()) {
             let u = uit.next().unwrap();
             let conf = config(c.cfg);
+            vl = resp.headers.len();
             r = match c.entry {
                 0 => resp.parse(b),
                 1 => conf.parse_response(&mut resp, b),
@@ -342,6 +346,7 @@ fn hist_case(kind: &str, cap: usize, calls: &[Call], bufs: &[Vec<u8>], out: &mut
         slots(last, resp.headers.as_ptr(), resp.headers.len(), out);
         out.push_str(" |");
     }
+    write!(out, " ;start={}", vl).unwrap();
 }
 
 // ---------------------------------------------------------------- guard pages
@@ -643,6 +648,149 @@ fn run_file(path: &str, mode: Mode) {
     w.flush().unwrap();
 }
 
+
+// ---------------------------------------------------------------- exhaustive scanner sweeps (C12)
+fn rfc_class(cls: u8, b: u8) -> bool {
+    match cls {
+        0 => (0x21..=0x7e).contains(&b) || b >= 0x80,
+        1 => b == 0x09 || (0x20..=0x7e).contains(&b) || b >= 0x80,
+        _ => b.is_ascii_alphanumeric() || b"!#$%&'*+-.^_`|~".contains(&b),
+    }
+}
+fn first_out(cls: u8, b: &[u8]) -> usize {
+    b.iter().position(|&x| !rfc_class(cls, x)).unwrap_or(b.len())
+}
+
+#[cfg(httparse_verif)]
+fn sweep(maxlen: usize, full: bool) {
+    let mut evals: u64 = 0;
+    let mut fails: u64 = 0;
+    // class tables against the RFC predicates
+    for b in 0..=255u8 {
+        let t = [
+            (httparse::_verif::is_uri_token(b), rfc_class(0, b), "is_uri_token"),
+            (httparse::_verif::is_header_value_token(b), rfc_class(1, b), "is_header_value_token"),
+            (httparse::_verif::is_header_name_token(b), rfc_class(2, b), "is_header_name_token"),
+            (httparse::_verif::is_method_token(b), rfc_class(2, b), "is_method_token"),
+        ];
+        for (got, want, name) in t {
+            evals += 1;
+            if got != want {
+                println!("TABLE-FAIL {} byte={} got={} want={}", name, b, got, want);
+            }
+        }
+    }
+    let fill = [b'a', b'v', b'n'];
+    let mut store = vec![0u8; maxlen + 256];
+    let base = (64 - store.as_ptr() as usize % 64) % 64;
+    let mut check = |be: u8, cls: u8, align: usize, data: &[u8], evals: &mut u64, fails: &mut u64, store: &mut Vec<u8>| {
+        let off = base + align;
+        store[off..off + data.len()].copy_from_slice(data);
+        // the byte after the data is in-class, so an overrun is visible as a wrong stop
+        store[off + data.len()] = fill[cls as usize];
+        if let Some(got) = httparse::_verif::scan(be, cls, &store[off..off + data.len()]) {
+            *evals += 1;
+            let want = first_out(cls, data);
+            if got != want {
+                *fails += 1;
+                if *fails <= 20 {
+                    println!("SWEEP-FAIL {} {} {} {} {} {}", be, cls, align, if data.is_empty() { "-".to_string() } else { hex(data) }, got, want);
+                }
+            }
+        }
+    };
+    let mut distinct: u64 = 0;
+    for be in 0..4u8 {
+        for cls in 0..3u8 {
+            if httparse::_verif::scan(be, cls, b"a").is_none() {
+                continue;
+            }
+            let f = fill[cls as usize];
+            // one offending byte: every length, position and byte value
+            for len in 0..=maxlen {
+                let mut data = vec![f; len];
+                check(be, cls, len % 32, &data, &mut evals, &mut fails, &mut store);
+                for pos in 0..len {
+                    for v in 0..=255u8 {
+                        data[pos] = v;
+                        check(be, cls, (len + pos) % 32, &data, &mut evals, &mut fails, &mut store);
+                        distinct += 1;
+                    }
+                    data[pos] = f;
+                }
+            }
+            // two offending positions
+            let len = maxlen;
+            for bad in [0u8, 0x7f, b' ', b'\r', b'\t', b':'] {
+                let mut data = vec![f; len];
+                for p1 in 0..len {
+                    for p2 in (p1 + 1)..len {
+                        data[p1] = bad;
+                        data[p2] = 0x7f;
+                        check(be, cls, 0, &data, &mut evals, &mut fails, &mut store);
+                        distinct += 1;
+                        data[p2] = f;
+                    }
+                    data[p1] = f;
+                }
+            }
+            // every start alignment 0..31 x lengths around the block sizes
+            for align in 0..32usize {
+                for len in [0usize, 1, 7, 8, 9, 15, 16, 17, 31, 32, 33, 47, 48, 63, 64, 65] {
+                    if len > maxlen {
+                        continue;
+                    }
+                    let mut data = vec![f; len];
+                    check(be, cls, align, &data, &mut evals, &mut fails, &mut store);
+                    for pos in 0..len {
+                        for bad in [0u8, 0x7f, b'\n', b'\t', b' '] {
+                            data[pos] = bad;
+                            check(be, cls, align, &data, &mut evals, &mut fails, &mut store);
+                            distinct += 1;
+                        }
+                        data[pos] = f;
+                    }
+                }
+            }
+        }
+    }
+    // SWAR block kernels: the target kernel is exact; the value kernel is exact for the class
+    // 0x20-0x7E / 0x80-0xFF (HTAB is a conservative stop the loop re-examines)
+    const W: usize = httparse::_verif::BLOCK_SIZE;
+    let strict = |which: u8, b: u8| -> bool {
+        if which == 0 { rfc_class(0, b) } else { (0x20..=0x7e).contains(&b) || b >= 0x80 }
+    };
+    let alpha: [u8; 8] = [0x00, 0x09, 0x1f, 0x20, 0x21, 0x7e, 0x7f, 0x80];
+    let alpha_small: [u8; 5] = [0x09, 0x20, 0x21, 0x7f, 0xff];
+    let n = if full { 8usize } else { 5 };
+    let total = (n as u64).pow(W as u32);
+    for which in 0..2u8 {
+        for idx in 0..total {
+            let mut block = [0u8; W];
+            let mut k = idx;
+            for b in block.iter_mut() {
+                *b = if full { alpha[(k % 8) as usize] } else { alpha_small[(k % 5) as usize] };
+                k /= n as u64;
+            }
+            let got = if which == 0 { httparse::_verif::uri_block(block) } else { httparse::_verif::header_value_block(block) };
+            let want = block.iter().position(|&b| !strict(which, b)).unwrap_or(W);
+            evals += 1;
+            distinct += 1;
+            if got != want {
+                fails += 1;
+                if fails <= 20 {
+                    println!("KERNEL-FAIL {} {} {} {}", if which == 0 { "u" } else { "v" }, hex(&block), got, want);
+                }
+            }
+        }
+    }
+    println!("sweep maxlen={} evaluations={} distinct={} failures={}", maxlen, evals, distinct, fails);
+}
+#[cfg(not(httparse_verif))]
+fn sweep(_: usize, _: bool) {
+    println!("NA");
+}
+
 // ---------------------------------------------------------------- utf8 (transcription of Model.utf8_valid)
 fn utf8_model(l: &[u8]) -> bool {
     let r = |lo: u8, hi: u8, b: u8| lo <= b && b <= hi;
@@ -824,6 +972,7 @@ fn main() {
         Some("work") => run_file(&args[2], Mode::Work),
         Some("utf8") => utf8_check(args[2].parse().unwrap(), args[3].parse().unwrap()),
         Some("tables") => tables(),
+        Some("sweep") => sweep(args[2].parse().unwrap(), args.get(3).map(|s| s == "1").unwrap_or(false)),
         Some("info") => info(),
         Some("race") => race(args[2].parse().unwrap()),
         _ => {
